@@ -6,12 +6,13 @@
 (* and, when EMIT=1, prints each case with the outcome the specification   *)
 (* predicts, for replay in the real code (spec -> code).                   *)
 (***************************************************************************)
-EXTENDS Universe, JsonSchema, Json, IOUtils
+EXTENDS Universe, Dialects, Json, IOUtils
 
 CONSTANTS Tier,       \* "d0" | "d1" | "d2" | "obj" | "u": which slice of the type universe
           Coerce,     \* BOOLEAN: is coercion part of the option space of this run
           Deviations, \* named deviations of the implementation-shaped layer (negative checks)
-          SchemaGaps  \* known design gaps of the schema builder excluded from SchemaAgrees
+          SchemaGaps, \* known design gaps of the schema builder excluded from SchemaAgrees
+          VocabularyGaps \* keywords known to leak into dialects that do not have them (known finding)
 VARIABLES T, O, d, res, phase
 vars == <<T, O, d, res, phase>>
 
@@ -85,6 +86,24 @@ InSchemaDomain == /\ ~O.coerce /\ ~O.fbd /\ ~UsesFbd(T, {}) /\ ~HasIntFloat(d)
                   /\ \A g \in SchemaGaps : ~UsesFeature(T, g, {})
 SchemaAgrees == (phase = "done" /\ InSchemaDomain /\ ~IsUnspec(res)) => (SchemaAccepts = res.ok)
 
+\* C18: the converted schema accepts, under the target dialect's own rules, what the draft 2020-12
+\* schema accepts -- up to what OpenAPI 3.0 cannot express and drops -- and uses only its vocabulary
+Schema2020 == SchemaOf(Ctx(O), "d", T, <<>>, {})
+DialectEquivalent ==
+  phase = "done" =>
+    \A V \in {"2019-09", "draft-07", "oas30"} :
+       LET base == Validates(Ctx(O), "d", Schema2020, d)
+           conv == ValidatesV(Ctx(O), "d", V, Convert(Schema2020, V), d) IN
+       IF (V = "oas30" /\ UsesDropped(Schema2020))
+          \* the draft-07 schema of an object with flattened fields keeps unevaluatedProperties, which
+          \* draft-07 validators ignore (known finding F-dialect-vocabulary): it can only accept more
+          \/ (V = "draft-07" /\ UsesFeature(T, "flattened", {}))
+       THEN base => conv ELSE base = conv
+VocabularyOnly ==
+  phase = "type" => \A V \in {"2019-09", "draft-07", "oas30"} :
+     LET bad == BadKeywords(Convert(Schema2020, V), V) \ VocabularyGaps IN
+     bad = {} \/ (PrintT(ToJson([badkw |-> bad, version |-> V, type |-> T])) /\ FALSE)
+
 Init == /\ T \in Types
         /\ O \in OptsFor(T)
         /\ d = DNull /\ res = Ok(DNull) /\ phase = "type"
@@ -107,7 +126,13 @@ Run == /\ phase = "data"
                                  saccept |-> Validates(Ctx(O), "d", SchemaOf(Ctx(O), "d", T, <<>>, {}), d),
                                  \* ... and with uniqueItems enforced for set-typed positions too (what a validator does)
                                  saccept_u |-> LET c2 == Ctx([O EXCEPT !.setuniq = TRUE]) IN
-                                               Validates(c2, "d", SchemaOf(c2, "d", T, <<>>, {}), d)]))
+                                               Validates(c2, "d", SchemaOf(c2, "d", T, <<>>, {}), d),
+                                 \* C18: acceptance by the converted schema under each dialect's own rules
+                                 \* (uniqueItems enforced for sets, as validators do), and use of dropped keywords
+                                 vaccept |-> LET c2 == Ctx([O EXCEPT !.setuniq = TRUE])
+                                                 s2 == SchemaOf(c2, "d", T, <<>>, {}) IN
+                                             [V \in {"2019-09", "draft-07", "oas30"} |-> ValidatesV(c2, "d", V, Convert(s2, V), d)],
+                                 dropped |-> UsesDropped(SchemaOf(Ctx(O), "d", T, <<>>, {}))]))
 
 Next == PickData \/ Run
 Spec == Init /\ [][Next]_vars
